@@ -427,7 +427,7 @@ class C12(Check):
         'reentrant nesting capped at depth 3 in generated sequences',
     ]
     rule = ('cases = (config, operation sequence[, fault set]) with config in {1,2 objects} x {reentrant, not} x '
-            '{default timeout -1, small}; sequences enumerated completely up to the stated length (first op by '
+            '{default timeout -1, small}, the path given as str / pathlib.Path / a bare __fspath__ object; sequences enumerated completely up to the stated length (first op by '
             'thread 0 on object 0 to break symmetry), every (model state reachable in <= 6 ops) x (op) transition, '
             'random sequences up to length 30; ten sequences in a real process whose standard streams are closed (lock file on '
             'descriptor 0-2); fault cases inject OSError at every call index of '
